@@ -9,3 +9,5 @@ func TestC11(t *testing.T) { Run(t, PropC11) }
 func TestC13(t *testing.T) { Run(t, PropC13) }
 
 func TestC14(t *testing.T) { Run(t, PropC14) }
+
+func TestC19(t *testing.T) { Run(t, PropC19) }
